@@ -1259,6 +1259,14 @@ func (ctx Ctx) funcLit(e *ast.FuncLit) coq.FuncLit {
 	fl := coq.FuncLit{}
 
 	fl.Args = ctx.paramList(e.Type.Params)
+	if e.Type.Results != nil {
+		for _, r := range e.Type.Results.List {
+			if len(r.Names) > 0 {
+				// same restriction as returnType for declared functions
+				ctx.unsupported(r, "named returned value")
+			}
+		}
+	}
 	// fl.ReturnType = ctx.returnType(d.Type.Results)
 	fl.Body = ctx.blockStmt(e.Body, ExprValReturned)
 	return fl
